@@ -8,16 +8,25 @@
 
 namespace etl::detail {
 
+// An alternative T is only a candidate for a source of type U, if the
+// declaration `T x[] = {etl::declval<U>()};` is well-formed. This excludes
+// alternatives that would require a narrowing conversion. (P0608R3, P1957R2)
 template <typename T>
-struct variant_alternative_selector_single {
-    auto operator()(T /*t*/) const -> T;
+struct variant_alternative_selector_array {
+    T x[1];
 };
 
-template <typename... Ts>
-inline constexpr auto variant_alternative_selector = etl::overload{variant_alternative_selector_single<Ts>{}...};
+template <typename T, typename U>
+struct variant_alternative_selector_single {
+    auto operator()(T /*t*/) const -> T
+        requires requires { variant_alternative_selector_array<T>{{etl::declval<U>()}}; };
+};
+
+template <typename U, typename... Ts>
+inline constexpr auto variant_alternative_selector = etl::overload{variant_alternative_selector_single<Ts, U>{}...};
 
 template <typename T, typename... Ts>
-using variant_alternative_selector_t = decltype(variant_alternative_selector<Ts...>(etl::declval<T>()));
+using variant_alternative_selector_t = decltype(variant_alternative_selector<T, Ts...>(etl::declval<T>()));
 
 } // namespace etl::detail
 
